@@ -78,9 +78,15 @@ theorem l1AcceptedNumber_eq (nd : Node) : l1AcceptedNumber nd = resolve nd .l1Ac
   unfold l1AcceptedNumber resolve height
   cases nd.l1 <;> by_cases h : nd.chain.isEmpty <;> simp [h]
 
+/-- The index buckets say what a search in the chain says (proved for all fresh histories below:
+`run_bucketsOk`). -/
+def BucketsOk (nd : Node) : Prop :=
+  (∀ h, numberByHash nd h = nd.chain.findIdx? (fun b => b.hash == h)) ∧
+  (∀ h, numberAndIndexByTxHash nd h = findTx nd.chain h)
+
 /-- `blockHeaderByID` / `blockByID` return exactly the block the identifier denotes, and
 BLOCK_NOT_FOUND exactly when it denotes none. -/
-theorem blockById_eq (ver : Ver) (nd : Node) (id : BlockId) (hv : ¬ (ver = .v8 ∧ id = .l1Accepted)) :
+theorem blockById_eq (ver : Ver) (nd : Node) (id : BlockId) (ok : BucketsOk nd) (hv : ¬ (ver = .v8 ∧ id = .l1Accepted)) :
     blockById ver nd id =
       match resolvedBlock nd id with
       | some b => .ok b
@@ -92,7 +98,7 @@ theorem blockById_eq (ver : Ver) (nd : Node) (id : BlockId) (hv : ¬ (ver = .v8 
     · simp [h]
     · simp [h]
   | hash x =>
-    simp only [blockById, resolvedBlock, resolve, blockByHash, numberByHash]
+    simp only [blockById, resolvedBlock, resolve, blockByHash, ok.1]
     rfl
   | latest =>
     simp only [blockById, resolvedBlock, resolve, headBlock, height]
@@ -121,42 +127,42 @@ theorem resolvedBlock_at {nd : Node} {id : BlockId} {b : Block} (wf : WellFormed
 
 /-! ### the block methods -/
 
-theorem blockWithTxHashes_eq {ver : Ver} {nd : Node} {id : BlockId} (wf : WellFormed nd)
+theorem blockWithTxHashes_eq {ver : Ver} {nd : Node} {id : BlockId} (ok : BucketsOk nd) (wf : WellFormed nd)
     (hv : ¬ (ver = .v8 ∧ id = .l1Accepted)) :
     blockWithTxHashesStored ver nd id =
       match resolvedBlock nd id with
       | some b => .blockHashes (hdrOf nd b) (b.txs.map (·.hash))
       | none => .err .blockNotFound := by
   unfold blockWithTxHashesStored
-  rw [blockById_eq ver nd id hv]
+  rw [blockById_eq ver nd id ok hv]
   cases h : resolvedBlock nd id with
   | none => rfl
   | some b =>
     have := (resolvedBlock_at wf h).2
     simp [txHashesByNumber, blockByNumber, this]
 
-theorem blockWithTxs_eq {ver : Ver} {nd : Node} {id : BlockId} (wf : WellFormed nd)
+theorem blockWithTxs_eq {ver : Ver} {nd : Node} {id : BlockId} (ok : BucketsOk nd) (wf : WellFormed nd)
     (hv : ¬ (ver = .v8 ∧ id = .l1Accepted)) :
     blockWithTxsStored ver nd id =
       match resolvedBlock nd id with
       | some b => .blockTxs (hdrOf nd b) b.txs
       | none => .err .blockNotFound := by
   unfold blockWithTxsStored
-  rw [blockById_eq ver nd id hv]
+  rw [blockById_eq ver nd id ok hv]
   cases h : resolvedBlock nd id with
   | none => rfl
   | some b =>
     have := (resolvedBlock_at wf h).2
     simp [txsByNumber, blockByNumber, this]
 
-theorem blockWithReceipts_eq {ver : Ver} {nd : Node} {id : BlockId}
+theorem blockWithReceipts_eq {ver : Ver} {nd : Node} {id : BlockId}(ok : BucketsOk nd) 
     (hv : ¬ (ver = .v8 ∧ id = .l1Accepted)) :
     blockWithReceiptsStored ver nd id =
       match resolvedBlock nd id with
       | some b => .blockReceipts (hdrOf nd b) (b.txs.map (fun t => (t, finality b.number (statusL1 nd))))
       | none => .err .blockNotFound := by
   unfold blockWithReceiptsStored
-  rw [blockById_eq ver nd id hv]
+  rw [blockById_eq ver nd id ok hv]
   cases h : resolvedBlock nd id <;> rfl
 
 theorem stateUpdate_eq_blockById (ver : Ver) (nd : Node) (id : BlockId) (f : List Nat) :
@@ -166,13 +172,13 @@ theorem stateUpdate_eq_blockById (ver : Ver) (nd : Node) (id : BlockId) (f : Lis
       | .ok b => .update b.hash b.root b.oldRoot (filterDiff ver f b.diff) := by
   cases id <;> cases ver <;> rfl
 
-theorem stateUpdate_eq {ver : Ver} {nd : Node} {id : BlockId} (f : List Nat)
+theorem stateUpdate_eq {ver : Ver} {nd : Node} {id : BlockId} (ok : BucketsOk nd) (f : List Nat)
     (hv : ¬ (ver = .v8 ∧ id = .l1Accepted)) :
     stateUpdateStored ver nd id f =
       match resolvedBlock nd id with
       | some b => .update b.hash b.root b.oldRoot (filterDiff ver f b.diff)
       | none => .err .blockNotFound := by
-  rw [stateUpdate_eq_blockById, blockById_eq ver nd id hv]
+  rw [stateUpdate_eq_blockById, blockById_eq ver nd id ok hv]
   cases h : resolvedBlock nd id <;> rfl
 
 theorem resolvedBlock_number (nd : Node) (n : Nat) :
@@ -180,7 +186,7 @@ theorem resolvedBlock_number (nd : Node) (n : Nat) :
   simp only [resolvedBlock, resolve]
   by_cases h : n < nd.chain.length <;> simp [h]
 
-theorem blockTransactionCount_eq {ver : Ver} {nd : Node} {id : BlockId}
+theorem blockTransactionCount_eq {ver : Ver} {nd : Node} {id : BlockId}(ok : BucketsOk nd) 
     (hv : ¬ (ver = .v8 ∧ id = .l1Accepted)) :
     blockTransactionCountStored ver nd id =
       match resolvedBlock nd id with
@@ -189,7 +195,7 @@ theorem blockTransactionCount_eq {ver : Ver} {nd : Node} {id : BlockId}
   cases ver with
   | v8 =>
     simp only [blockTransactionCountStored]
-    rw [blockById_eq .v8 nd id hv]
+    rw [blockById_eq .v8 nd id ok hv]
     cases h : resolvedBlock nd id <;> rfl
   | v9 =>
     cases id with
@@ -197,7 +203,7 @@ theorem blockTransactionCount_eq {ver : Ver} {nd : Node} {id : BlockId}
       simp only [blockTransactionCountStored, txCountByNumber, blockByNumber, resolvedBlock_number]
       cases nd.chain[n]? <;> rfl
     | hash x =>
-      simp only [blockTransactionCountStored, txCountByNumber, blockByNumber, numberByHash, resolvedBlock, resolve]
+      simp only [blockTransactionCountStored, txCountByNumber, blockByNumber, ok.1, resolvedBlock, resolve]
       cases List.findIdx? (fun b => b.hash == x) nd.chain with
       | none => rfl
       | some n => simp only [Option.bind]; cases nd.chain[n]? <;> rfl
@@ -218,7 +224,7 @@ theorem blockTransactionCount_eq {ver : Ver} {nd : Node} {id : BlockId}
       simp only [blockTransactionCountStored, txCountByNumber, blockByNumber, resolvedBlock_number]
       cases nd.chain[n]? <;> rfl
     | hash x =>
-      simp only [blockTransactionCountStored, txCountByNumber, blockByNumber, numberByHash, resolvedBlock, resolve]
+      simp only [blockTransactionCountStored, txCountByNumber, blockByNumber, ok.1, resolvedBlock, resolve]
       cases List.findIdx? (fun b => b.hash == x) nd.chain with
       | none => rfl
       | some n => simp only [Option.bind]; cases nd.chain[n]? <;> rfl
@@ -241,7 +247,7 @@ def BlockId.isNumber : BlockId → Bool
 /-- `TransactionByBlockIDAndIndex`, exactly: the transaction at that index of the denoted block,
 INVALID_TXN_INDEX past its end, BLOCK_NOT_FOUND when nothing is denoted — except that a
 `block_number` above the height is answered with INVALID_TXN_INDEX. -/
-theorem transactionByBlockIdAndIndex_eq {ver : Ver} {nd : Node} {id : BlockId} (i : Nat)
+theorem transactionByBlockIdAndIndex_eq {ver : Ver} {nd : Node} {id : BlockId} (ok : BucketsOk nd) (i : Nat)
     (wf : WellFormed nd) (hv : ¬ (ver = .v8 ∧ id = .l1Accepted)) :
     transactionByBlockIdAndIndexStored ver nd id i =
       match resolvedBlock nd id with
@@ -255,7 +261,7 @@ theorem transactionByBlockIdAndIndex_eq {ver : Ver} {nd : Node} {id : BlockId} (
     | none => rfl
     | some b => simp only [Option.bind]; cases b.txs[i]? <;> rfl
   | hash x =>
-    simp only [transactionByBlockIdAndIndexStored, txByNumberAndIndex, blockByNumber, numberByHash,
+    simp only [transactionByBlockIdAndIndexStored, txByNumberAndIndex, blockByNumber, ok.1,
       resolvedBlock, resolve, BlockId.isNumber]
     cases hf : List.findIdx? (fun b => b.hash == x) nd.chain with
     | none => rfl
@@ -339,40 +345,41 @@ theorem findTx_some {bs : List Block} {h n i : Nat} (hf : findTx bs h = some (n,
 
 /-- Under well-formedness the (number, index) stored for a transaction hash leads back to a
 transaction of the chain carrying that hash. -/
-theorem txLookup {nd : Node} {h n i : Nat} (wf : WellFormed nd)
+theorem txLookup {nd : Node} {h n i : Nat} (ok : BucketsOk nd) (wf : WellFormed nd)
     (hf : numberAndIndexByTxHash nd h = some (n, i)) :
     ∃ b t, nd.chain[n]? = some b ∧ b.txs[i]? = some t ∧ t.hash = h := by
+  rw [ok.2 h] at hf
   obtain ⟨b, hb, hn, t, ht, hh⟩ := findTx_some hf
   obtain ⟨j, hj⟩ := List.getElem?_of_mem hb
   have := wf j b hj
   refine ⟨b, t, ?_, ht, hh⟩
   rw [← hn, this]; exact hj
 
-theorem transactionByHash_sound {nd : Node} {h : Nat} {t : Tx} (wf : WellFormed nd)
+theorem transactionByHash_sound {nd : Node} {h : Nat} {t : Tx} (ok : BucketsOk nd) (wf : WellFormed nd)
     (ha : transactionByHash nd h = .tx t) : t.hash = h ∧ ∃ b ∈ nd.chain, t ∈ b.txs := by
   unfold transactionByHash txByHash at ha
   cases hf : numberAndIndexByTxHash nd h with
   | none => simp [hf] at ha
   | some p =>
     obtain ⟨n, i⟩ := p
-    obtain ⟨b, t', hb, ht, hh⟩ := txLookup wf hf
+    obtain ⟨b, t', hb, ht, hh⟩ := txLookup ok wf hf
     simp [hf, txByNumberAndIndex, blockByNumber, hb, ht] at ha
     subst ha
     exact ⟨hh, b, List.mem_of_getElem? hb, List.mem_of_getElem? ht⟩
 
-theorem transactionByHash_notFound_iff {nd : Node} {h : Nat} (wf : WellFormed nd) :
+theorem transactionByHash_notFound_iff {nd : Node} {h : Nat} (ok : BucketsOk nd) (wf : WellFormed nd) :
     transactionByHash nd h = .err .txnHashNotFound ↔ ∀ b ∈ nd.chain, ∀ t ∈ b.txs, t.hash ≠ h := by
   rw [← findTx_none_iff]
   unfold transactionByHash txByHash
   cases hf : numberAndIndexByTxHash nd h with
-  | none => simpa [numberAndIndexByTxHash] using hf
+  | none => rw [ok.2 h] at hf; simpa using hf
   | some p =>
     obtain ⟨n, i⟩ := p
-    obtain ⟨b, t', hb, ht, hh⟩ := txLookup wf hf
-    have hf' : findTx nd.chain h = some (n, i) := hf
+    obtain ⟨b, t', hb, ht, hh⟩ := txLookup ok wf hf
+    have hf' : findTx nd.chain h = some (n, i) := by rw [← ok.2 h]; exact hf
     simp [txByNumberAndIndex, blockByNumber, hb, ht, hf']
 
-theorem transactionReceipt_sound {nd : Node} {h n bh : Nat} {t : Tx} {f : Fin} (wf : WellFormed nd)
+theorem transactionReceipt_sound {nd : Node} {h n bh : Nat} {t : Tx} {f : Fin} (ok : BucketsOk nd) (wf : WellFormed nd)
     (ha : transactionReceipt nd h = .receipt t f n bh) :
     t.hash = h ∧ f = finality n (statusL1 nd) ∧ ∃ b, nd.chain[n]? = some b ∧ t ∈ b.txs ∧ bh = b.hash := by
   unfold transactionReceipt at ha
@@ -380,25 +387,25 @@ theorem transactionReceipt_sound {nd : Node} {h n bh : Nat} {t : Tx} {f : Fin} (
   | none => simp [hf] at ha
   | some p =>
     obtain ⟨n', i⟩ := p
-    obtain ⟨b, t', hb, ht, hh⟩ := txLookup wf hf
+    obtain ⟨b, t', hb, ht, hh⟩ := txLookup ok wf hf
     simp [hf, txAndBlockHash, blockByNumber, hb, ht] at ha
     obtain ⟨h1, h2, h3, h4⟩ := ha
     subst h1 h3 h4
     exact ⟨hh, h2.symm, b, hb, List.mem_of_getElem? ht, rfl⟩
 
-theorem transactionReceipt_notFound_iff {nd : Node} {h : Nat} (wf : WellFormed nd) :
+theorem transactionReceipt_notFound_iff {nd : Node} {h : Nat} (ok : BucketsOk nd) (wf : WellFormed nd) :
     transactionReceipt nd h = .err .txnHashNotFound ↔ ∀ b ∈ nd.chain, ∀ t ∈ b.txs, t.hash ≠ h := by
   rw [← findTx_none_iff]
   unfold transactionReceipt
   cases hf : numberAndIndexByTxHash nd h with
-  | none => simpa [numberAndIndexByTxHash] using hf
+  | none => rw [ok.2 h] at hf; simpa using hf
   | some p =>
     obtain ⟨n, i⟩ := p
-    obtain ⟨b, t', hb, ht, hh⟩ := txLookup wf hf
-    have hf' : findTx nd.chain h = some (n, i) := hf
+    obtain ⟨b, t', hb, ht, hh⟩ := txLookup ok wf hf
+    have hf' : findTx nd.chain h = some (n, i) := by rw [← ok.2 h]; exact hf
     simp [txAndBlockHash, blockByNumber, hb, ht, hf']
 
-theorem transactionStatus_sound {nd : Node} {h : Nat} {f : Fin} {r : Bool} (wf : WellFormed nd)
+theorem transactionStatus_sound {nd : Node} {h : Nat} {f : Fin} {r : Bool} (ok : BucketsOk nd) (wf : WellFormed nd)
     (ha : transactionStatus nd h = .status f r) :
     ∃ n b t, nd.chain[n]? = some b ∧ t ∈ b.txs ∧ t.hash = h ∧ f = finality n (statusL1 nd) ∧ r = t.reverted := by
   unfold transactionStatus at ha
@@ -406,59 +413,58 @@ theorem transactionStatus_sound {nd : Node} {h : Nat} {f : Fin} {r : Bool} (wf :
   | none => simp [hf] at ha
   | some p =>
     obtain ⟨n, i⟩ := p
-    obtain ⟨b, t, hb, ht, hh⟩ := txLookup wf hf
+    obtain ⟨b, t, hb, ht, hh⟩ := txLookup ok wf hf
     simp [hf, txByNumberAndIndex, blockByNumber, hb, ht] at ha
     exact ⟨n, b, t, hb, List.mem_of_getElem? ht, hh, ha.1.symm, ha.2.symm⟩
 
-theorem transactionStatus_notFound_iff {nd : Node} {h : Nat} (wf : WellFormed nd) :
+theorem transactionStatus_notFound_iff {nd : Node} {h : Nat} (ok : BucketsOk nd) (wf : WellFormed nd) :
     transactionStatus nd h = .err .txnHashNotFound ↔ ∀ b ∈ nd.chain, ∀ t ∈ b.txs, t.hash ≠ h := by
   rw [← findTx_none_iff]
   unfold transactionStatus
   cases hf : numberAndIndexByTxHash nd h with
-  | none => simpa [numberAndIndexByTxHash] using hf
+  | none => rw [ok.2 h] at hf; simpa using hf
   | some p =>
     obtain ⟨n, i⟩ := p
-    obtain ⟨b, t', hb, ht, hh⟩ := txLookup wf hf
-    have hf' : findTx nd.chain h = some (n, i) := hf
+    obtain ⟨b, t', hb, ht, hh⟩ := txLookup ok wf hf
+    have hf' : findTx nd.chain h = some (n, i) := by rw [← ok.2 h]; exact hf
     simp [txByNumberAndIndex, blockByNumber, hb, ht, hf']
 
-/-! ### reverts -/
+theorem store_chain {nd nd' : Node} {b : Block} (hs : store nd b = some nd') :
+    nd'.chain = nd.chain ++ [b] ∧ nd'.numByHash = (b.hash, b.number) :: nd.numByHash ∧
+      nd'.txLoc = txEntries b.number 0 b.txs ++ nd.txLoc ∧ nd'.l1 = nd.l1 ∧ nd'.l1Zero = nd.l1Zero := by
+  unfold store at hs
+  split at hs
+  · cases hs; exact ⟨rfl, rfl, rfl, rfl, rfl⟩
+  · cases hs
 
-/-- All block hashes of the chain are distinct (ideal hash: distinct blocks, distinct hashes). -/
-def HashesDistinct (nd : Node) : Prop := (nd.chain.map (·.hash)).Nodup
+theorem revert_chain {nd nd' : Node} (hr : revert nd = some nd') :
+    ∃ b, nd.chain = nd'.chain ++ [b] ∧ nd'.chain = nd.chain.dropLast ∧
+      nd'.numByHash = nd.numByHash.filter (fun e => e.1 != b.hash) ∧
+      nd'.txLoc = nd.txLoc.filter (fun e => !(b.txs.any (fun t => t.hash == e.1))) ∧
+      nd'.l1 = nd.l1 ∧ nd'.l1Zero = nd.l1Zero := by
+  unfold revert at hr
+  split at hr
+  · cases hr
+  · rename_i b hb
+    cases hr
+    obtain ⟨ys, hys⟩ := List.getLast?_eq_some_iff.mp hb
+    refine ⟨b, ?_, rfl, rfl, rfl, rfl, rfl⟩
+    simp only [hys, List.dropLast_concat]
 
-/-- All transaction hashes of the chain are distinct. -/
-def TxHashesDistinct (nd : Node) : Prop := (nd.chain.flatMap (fun b => b.txs.map (·.hash))).Nodup
-
-theorem revert_append (nd : Node) (bs : List Block) (b : Block) (h : nd.chain = bs ++ [b]) :
-    revert nd = some { nd with chain := bs } := by
+theorem revert_isSome_iff (nd : Node) : (revert nd).isSome ↔ nd.chain ≠ [] := by
   unfold revert
-  simp [h]
+  cases h : nd.chain.getLast? with
+  | none => simp [List.getLast?_eq_none_iff.mp h]
+  | some b =>
+    obtain ⟨ys, hys⟩ := List.getLast?_eq_some_iff.mp h
+    simp [hys]
 
-theorem reverted_hash_resolves_to_nothing (nd : Node) (bs : List Block) (b : Block)
-    (h : nd.chain = bs ++ [b]) (hd : HashesDistinct nd) :
-    resolve { nd with chain := bs } (.hash b.hash) = none := by
-  simp only [resolve]
-  rw [List.findIdx?_eq_none_iff]
-  intro x hx
-  unfold HashesDistinct at hd
-  rw [h, List.map_append, List.nodup_append] at hd
-  have := hd.2.2 x.hash (List.mem_map_of_mem hx) b.hash (by simp)
-  simpa using this
-
-theorem reverted_tx_not_found (nd : Node) (bs : List Block) (b : Block) (t : Tx)
-    (h : nd.chain = bs ++ [b]) (hd : TxHashesDistinct nd) (ht : t ∈ b.txs) :
-    findTx bs t.hash = none := by
-  rw [findTx_none_iff]
-  intro x hx u hu
-  unfold TxHashesDistinct at hd
-  rw [h, List.flatMap_append, List.nodup_append] at hd
-  have h1 : u.hash ∈ bs.flatMap (fun b => b.txs.map (·.hash)) :=
-    List.mem_flatMap.mpr ⟨x, hx, List.mem_map_of_mem hu⟩
-  have h2 : t.hash ∈ [b].flatMap (fun b => b.txs.map (·.hash)) := by
-    simp only [List.flatMap_cons, List.flatMap_nil, List.append_nil]
-    exact List.mem_map_of_mem ht
-  exact hd.2.2 u.hash h1 t.hash h2
+theorem store_cond {nd nd' : Node} {b : Block} (hs : store nd b = some nd') :
+    succeeds nd b = true ∧ storageOk nd b = true := by
+  unfold store at hs
+  split at hs
+  · rename_i h; simpa [Bool.and_eq_true] using h
+  · cases hs
 
 /-! ### every reachable node is well formed and linked -/
 
@@ -541,6 +547,7 @@ theorem applyOp_wellFormed {nd : Node} (op : Op) (wf : WellFormed nd) : WellForm
     | none => exact wf
     | some nd' => exact revert_wellFormed wf h
   | setL1 l => exact wf
+  | setL1Zero => exact wf
 
 theorem foldl_wellFormed (ops : List Op) (nd : Node) (wf : WellFormed nd) :
     WellFormed (ops.foldl applyOp nd) := by
@@ -631,6 +638,7 @@ theorem applyOp_linked {nd : Node} (op : Op) (lk : Linked nd) : Linked (applyOp 
     | none => exact lk
     | some nd' => exact revert_linked lk h
   | setL1 l => exact lk
+  | setL1Zero => exact lk
 
 theorem foldl_linked (ops : List Op) (nd : Node) (lk : Linked nd) : Linked (ops.foldl applyOp nd) := by
   induction ops generalizing nd with
@@ -639,12 +647,267 @@ theorem foldl_linked (ops : List Op) (nd : Node) (lk : Linked nd) : Linked (ops.
 
 theorem run_linked (ops : List Op) : Linked (run ops) := foldl_linked ops _ linked_empty
 
+theorem number_of_stored {nd nd' : Node} {b : Block} (wf : WellFormed nd) (hs : store nd b = some nd') :
+    b.number = nd.chain.length := by
+  have hc := (store_chain hs).1
+  have : nd'.chain[nd.chain.length]? = some b := by rw [hc]; simp
+  exact (store_wellFormed wf hs) nd.chain.length b this
+
+/-! ### reverts and the index buckets -/
+
+/-- All block hashes of the chain are distinct. -/
+def HashesDistinct (nd : Node) : Prop := (nd.chain.map (·.hash)).Nodup
+
+/-- All transaction hashes of the chain are distinct. -/
+def TxHashesDistinct (nd : Node) : Prop := (nd.chain.flatMap (fun b => b.txs.map (·.hash))).Nodup
+
+/-- The block offered to `store` is new to the node: its hash and its transaction hashes occur
+nowhere on the current chain and its own transaction hashes are pairwise distinct. (Ideal hash:
+a block / transaction that differs from the stored ones has a different hash. A block that was
+reverted may be offered again: it is new to the chain at that point.) -/
+def FreshBlock (nd : Node) (b : Block) : Prop :=
+  (∀ x ∈ nd.chain, x.hash ≠ b.hash) ∧ (b.txs.map (·.hash)).Nodup ∧
+    (∀ x ∈ nd.chain, ∀ u ∈ x.txs, ∀ t ∈ b.txs, u.hash ≠ t.hash)
+
+/-- Every block a history stores is fresh at the moment it is stored. -/
+def FreshFrom : Node → List Op → Prop
+  | _, [] => True
+  | nd, op :: ops =>
+    (match op with
+     | .store b => (store nd b).isSome → FreshBlock nd b
+     | _ => True) ∧ FreshFrom (applyOp nd op) ops
+
+/-- What the buckets must satisfy, together with what keeps it true. -/
+def Inv (nd : Node) : Prop := BucketsOk nd ∧ HashesDistinct nd ∧ TxHashesDistinct nd
+
+theorem inv_empty : Inv ({} : Node) := by
+  refine ⟨⟨fun h => rfl, fun h => rfl⟩, ?_, ?_⟩ <;> simp [HashesDistinct, TxHashesDistinct]
+
+theorem find_txEntries (n h : Nat) : ∀ (ts : List Tx) (i0 : Nat),
+    ((txEntries n i0 ts).find? (fun e => e.1 == h)).map (·.2) =
+      (ts.findIdx? (fun t => t.hash == h)).map (fun i => (n, i0 + i)) := by
+  intro ts
+  induction ts with
+  | nil => intro i0; rfl
+  | cons t ts ih =>
+    intro i0
+    simp only [txEntries, List.find?_cons, List.findIdx?_cons]
+    by_cases ht : (t.hash == h) = true
+    · simp [ht]
+    · have hf : (t.hash == h) = false := by simpa using ht
+      simp only [hf]
+      rw [ih (i0 + 1)]
+      cases List.findIdx? (fun t => t.hash == h) ts with
+      | none => simp
+      | some i => simp; omega
+
+theorem findTx_singleton (b : Block) (h : Nat) :
+    findTx [b] h = (b.txs.findIdx? (fun t => t.hash == h)).map (fun i => (b.number, i)) := by
+  simp [findTx, List.findSome?_cons]
+  cases (List.findIdx? (fun t => t.hash == h) b.txs) <;> simp
+
+theorem store_inv {nd nd' : Node} {b : Block} (inv : Inv nd) (wf : WellFormed nd) (fr : FreshBlock nd b)
+    (hs : store nd b = some nd') : Inv nd' := by
+  obtain ⟨⟨ok1, ok2⟩, hd, td⟩ := inv
+  obtain ⟨fh, fn, ft⟩ := fr
+  obtain ⟨hc, hm, ht, _, _⟩ := store_chain hs
+  have hnum := number_of_stored wf hs
+  refine ⟨⟨?_, ?_⟩, ?_, ?_⟩
+  · intro h
+    simp only [numberByHash, hm, hc, List.find?_cons, List.findIdx?_append]
+    by_cases hb : (b.hash == h) = true
+    · have hnone : List.findIdx? (fun x => x.hash == h) nd.chain = none := by
+        rw [List.findIdx?_eq_none_iff]
+        intro x hx
+        have := fh x hx
+        have hbh : b.hash = h := by simpa using hb
+        simpa [← hbh] using this
+      simp [hb, hnone, hnum]
+    · have hf : (b.hash == h) = false := by simpa using hb
+      have := ok1 h
+      simp only [numberByHash] at this
+      simp [hf, this]
+  · intro h
+    simp only [numberAndIndexByTxHash, ht, hc, List.find?_append, findTx, List.findSome?_append]
+    have e1 := find_txEntries b.number h b.txs 0
+    have e2 := ok2 h
+    simp only [numberAndIndexByTxHash, findTx] at e2
+    have e3 := findTx_singleton b h
+    simp only [findTx] at e3
+    cases hin : List.findIdx? (fun t => t.hash == h) b.txs with
+    | none =>
+      have hnone : List.find? (fun e => e.1 == h) (txEntries b.number 0 b.txs) = none := by
+        cases hx : List.find? (fun e => e.1 == h) (txEntries b.number 0 b.txs) with
+        | none => rfl
+        | some e => rw [hx, hin] at e1; simp at e1
+      rw [hin] at e3
+      simp only [Option.map_none] at e3
+      simp [hnone, e3, ← e2, Option.map_or]
+    | some i =>
+      -- the hash is one of the new block's: by freshness it is not on the old chain
+      have hold : List.findSome? (fun b => Option.map (fun i => (b.number, i)) (List.findIdx? (fun t => t.hash == h) b.txs)) nd.chain = none := by
+        have := (findTx_none_iff nd.chain h).mpr (by
+          intro x hx u hu
+          obtain ⟨hlt, hp, _⟩ := List.findIdx?_eq_some_iff_getElem.mp hin
+          have hth : (b.txs[i]).hash = h := by simpa using hp
+          have := ft x hx u hu (b.txs[i]) (List.getElem_mem hlt)
+          rw [hth] at this
+          exact this)
+        simpa [findTx] using this
+      rw [hin] at e1 e3
+      cases hx : List.find? (fun e => e.1 == h) (txEntries b.number 0 b.txs) with
+      | none => rw [hx] at e1; simp at e1
+      | some e =>
+        rw [hx] at e1
+        simp only [Option.map_some] at e1 e3
+        simp [hold, e3, e1, Option.map_or]
+  · unfold HashesDistinct at *
+    rw [hc, List.map_append, List.nodup_append]
+    refine ⟨hd, by simp, ?_⟩
+    intro a ha c hcm
+    simp at hcm
+    subst hcm
+    obtain ⟨x, hx, hxa⟩ := List.mem_map.mp ha
+    rw [← hxa]
+    exact fh x hx
+  · unfold TxHashesDistinct at *
+    rw [hc, List.flatMap_append, List.nodup_append]
+    refine ⟨td, by simpa using fn, ?_⟩
+    intro a ha c hcm
+    simp only [List.flatMap_cons, List.flatMap_nil, List.append_nil] at hcm
+    obtain ⟨x, hx, hxa⟩ := List.mem_flatMap.mp ha
+    obtain ⟨u, hu, hua⟩ := List.mem_map.mp hxa
+    obtain ⟨t, ht', hta⟩ := List.mem_map.mp hcm
+    rw [← hua, ← hta]
+    exact ft x hx u hu t ht'
+
+theorem revert_inv {nd nd' : Node} (inv : Inv nd) (hr : revert nd = some nd') : Inv nd' := by
+  obtain ⟨⟨ok1, ok2⟩, hd, td⟩ := inv
+  obtain ⟨b, hcb, hdl, hm, ht, _, _⟩ := revert_chain hr
+  unfold HashesDistinct at hd
+  unfold TxHashesDistinct at td
+  rw [hcb, List.map_append, List.nodup_append] at hd
+  rw [hcb, List.flatMap_append, List.nodup_append] at td
+  refine ⟨⟨?_, ?_⟩, hd.1, td.1⟩
+  · intro h
+    have e := ok1 h
+    simp only [numberByHash] at e ⊢
+    rw [hm, List.find?_filter]
+    rw [hcb, List.findIdx?_append] at e
+    by_cases hb : b.hash = h
+    · -- the deleted key: gone from the bucket, and (hashes being distinct) from the chain
+      have h1 : List.find? (fun a => decide ((a.1 != b.hash) = true ∧ (a.1 == h) = true)) nd.numByHash = none := by
+        rw [List.find?_eq_none]
+        intro x _ hx
+        simp only [decide_eq_true_eq] at hx
+        obtain ⟨h1, h2⟩ := hx
+        have : x.1 = h := by simpa using h2
+        rw [this, ← hb] at h1
+        simp at h1
+      have h2 : List.findIdx? (fun x => x.hash == h) nd'.chain = none := by
+        rw [List.findIdx?_eq_none_iff]
+        intro x hx
+        have := hd.2.2 x.hash (List.mem_map_of_mem hx) b.hash (by simp)
+        rw [hb] at this
+        simpa using this
+      rw [h1, h2]; rfl
+    · have hf : (b.hash == h) = false := by simpa using hb
+      have h1 : List.find? (fun a => decide ((a.1 != b.hash) = true ∧ (a.1 == h) = true)) nd.numByHash =
+          List.find? (fun a => a.1 == h) nd.numByHash := by
+        congr 1
+        funext a
+        by_cases ha : (a.1 == h) = true
+        · have : a.1 = h := by simpa using ha
+          have hne : a.1 ≠ b.hash := by rw [this]; exact fun x => hb x.symm
+          simp [ha, hne]
+        · simp [ha]
+      rw [h1, e]
+      simp [List.findIdx?_cons, hf]
+  · intro h
+    have e := ok2 h
+    simp only [numberAndIndexByTxHash] at e ⊢
+    rw [ht, List.find?_filter]
+    rw [hcb] at e
+    simp only [findTx, List.findSome?_append] at e ⊢
+    have e3 := findTx_singleton b h
+    simp only [findTx] at e3
+    by_cases hin : ∃ t ∈ b.txs, t.hash = h
+    · obtain ⟨t, htm, hth⟩ := hin
+      have h1 : List.find? (fun a => decide ((!b.txs.any fun t => t.hash == a.1) = true ∧ (a.1 == h) = true)) nd.txLoc = none := by
+        rw [List.find?_eq_none]
+        intro x _ hx
+        simp only [decide_eq_true_eq] at hx
+        obtain ⟨h1, h2⟩ := hx
+        have hxh : x.1 = h := by simpa using h2
+        have : (b.txs.any fun t => t.hash == x.1) = true := by
+          rw [List.any_eq_true]; exact ⟨t, htm, by simp [hxh, hth]⟩
+        simp [this] at h1
+      have h2 : List.findSome? (fun b => Option.map (fun i => (b.number, i)) (List.findIdx? (fun t => t.hash == h) b.txs)) nd'.chain = none := by
+        have := (findTx_none_iff nd'.chain h).mpr (by
+          intro x hx u hu
+          have h1' : u.hash ∈ nd'.chain.flatMap (fun b => b.txs.map (·.hash)) :=
+            List.mem_flatMap.mpr ⟨x, hx, List.mem_map_of_mem hu⟩
+          have h2' : t.hash ∈ [b].flatMap (fun b => b.txs.map (·.hash)) := by
+            simp only [List.flatMap_cons, List.flatMap_nil, List.append_nil]
+            exact List.mem_map_of_mem htm
+          have := td.2.2 u.hash h1' t.hash h2'
+          rw [hth] at this
+          exact this)
+        simpa [findTx] using this
+      rw [h1, h2]; rfl
+    · have hnot : ∀ t ∈ b.txs, t.hash ≠ h := fun t ht' hh => hin ⟨t, ht', hh⟩
+      have hidx : List.findIdx? (fun t => t.hash == h) b.txs = none := by
+        rw [List.findIdx?_eq_none_iff]; intro t ht'; simpa using hnot t ht'
+      have h1 : List.find? (fun a => decide ((!b.txs.any fun t => t.hash == a.1) = true ∧ (a.1 == h) = true)) nd.txLoc =
+          List.find? (fun a => a.1 == h) nd.txLoc := by
+        congr 1
+        funext a
+        by_cases ha : (a.1 == h) = true
+        · have hah : a.1 = h := by simpa using ha
+          have : (b.txs.any fun t => t.hash == a.1) = false := by
+            rw [List.any_eq_false]; intro t ht'; rw [hah]; simpa using hnot t ht'
+          simp [ha, this]
+        · simp [ha]
+      rw [hidx] at e3
+      rw [h1, e]
+      simp [e3]
+
+theorem applyOp_inv {nd : Node} (op : Op) (inv : Inv nd) (wf : WellFormed nd)
+    (fr : match op with | .store b => (store nd b).isSome → FreshBlock nd b | _ => True) :
+    Inv (applyOp nd op) := by
+  cases op with
+  | store b =>
+    simp only [applyOp]
+    cases h : store nd b with
+    | none => exact inv
+    | some nd' => exact store_inv inv wf (fr (by simp [h])) h
+  | revert =>
+    simp only [applyOp]
+    cases h : revert nd with
+    | none => exact inv
+    | some nd' => exact revert_inv inv h
+  | setL1 l => exact ⟨⟨inv.1.1, inv.1.2⟩, inv.2.1, inv.2.2⟩
+  | setL1Zero => exact ⟨⟨inv.1.1, inv.1.2⟩, inv.2.1, inv.2.2⟩
+
+theorem foldl_inv (ops : List Op) (nd : Node) (inv : Inv nd) (wf : WellFormed nd) (fr : FreshFrom nd ops) :
+    Inv (ops.foldl applyOp nd) := by
+  induction ops generalizing nd with
+  | nil => exact inv
+  | cons op ops ih =>
+    obtain ⟨f1, f2⟩ := fr
+    exact ih _ (applyOp_inv op inv wf f1) (applyOp_wellFormed op wf) f2
+
+/-- For every history whose stored blocks are fresh when stored, the index buckets of the
+resulting node agree with a search in its chain, and its hashes are distinct. -/
+theorem run_inv (ops : List Op) (fr : FreshFrom {} ops) : Inv (run ops) :=
+  foldl_inv ops _ inv_empty wellFormed_empty fr
+
 /-! ### state readers -/
 
 /-- The state an identifier denotes: the fold of the diffs of blocks `0 … n`. -/
 def stateBlocks (nd : Node) (n : Nat) : List Block := nd.chain.take (n + 1)
 
-theorem stateById_eq (be : Backend) (ver : Ver) (nd : Node) (id : BlockId)
+theorem stateById_eq (be : Backend) (ver : Ver) (nd : Node) (id : BlockId)(ok : BucketsOk nd) 
     (hv : ¬ (ver = .v8 ∧ id = .l1Accepted)) (hp : ¬ (ver = .v8 ∧ id = .pre)) (hz : id ≠ .hash 0) :
     stateById be ver nd id =
       match resolve nd id with
@@ -656,7 +919,7 @@ theorem stateById_eq (be : Backend) (ver : Ver) (nd : Node) (id : BlockId)
     by_cases h : n < nd.chain.length <;> simp [h]
   | hash x =>
     have hx : x ≠ 0 := fun h => hz (by rw [h])
-    simp only [stateById, resolve, numberByHash, stateBlocks]
+    simp only [stateById, resolve, ok.1, stateBlocks]
     have : (x == 0) = false := by simpa using hx
     simp only [this]
     cases hf : List.findIdx? (fun b => b.hash == x) nd.chain with
@@ -742,7 +1005,7 @@ theorem stateBlocks_succ (nd : Node) (n : Nat) (b : Block) (h : nd.chain[n + 1]?
 /-- The three versions of `StorageAt` coincide, and equal "value if the contract exists,
 CONTRACT_NOT_FOUND otherwise", whenever the reader is not the hash-0x0 one and non-zero storage
 only lives in contracts (deployed, or system contracts touched by a diff). -/
-theorem storageAt_eq (be : Backend) (ver : Ver) (nd : Node) (id : BlockId) (a k : Nat)
+theorem storageAt_eq (be : Backend) (ver : Ver) (nd : Node) (id : BlockId) (a k : Nat)(ok : BucketsOk nd) 
     (hv : ¬ (ver = .v8 ∧ id = .l1Accepted)) (hp : ¬ (ver = .v8 ∧ id = .pre)) (hz : id ≠ .hash 0)
     (hdep : ∀ n, resolve nd id = some n →
       storageIn (stateBlocks nd n) a k ≠ 0 → deployedIn (stateBlocks nd n) a = true) :
@@ -753,7 +1016,7 @@ theorem storageAt_eq (be : Backend) (ver : Ver) (nd : Node) (id : BlockId) (a k 
         if deployedIn (stateBlocks nd n) a then .num (storageIn (stateBlocks nd n) a k)
         else .err .contractNotFound := by
   unfold storageAt
-  rw [stateById_eq be ver nd id hv hp hz]
+  rw [stateById_eq be ver nd id ok hv hp hz]
   cases hr : resolve nd id with
   | none => rfl
   | some n =>
@@ -843,6 +1106,7 @@ theorem applyOp_storageInv {nd : Node} (op : Op) (inv : StorageInv nd) : Storage
     | none => exact inv
     | some nd' => exact revert_storageInv inv h
   | setL1 l => exact inv
+  | setL1Zero => exact inv
 
 theorem foldl_storageInv (ops : List Op) (nd : Node) (inv : StorageInv nd) :
     StorageInv (ops.foldl applyOp nd) := by
@@ -975,10 +1239,10 @@ theorem nodup_flatMap_index {α β : Type} (f : α → List β) : ∀ (l : List 
 
 /-- With distinct transaction hashes the hash index leads to exactly the position of the
 transaction. -/
-theorem findTx_complete {nd : Node} {n i : Nat} {b : Block} {t : Tx} (wf : WellFormed nd)
+theorem findTx_complete {nd : Node} {n i : Nat} {b : Block} {t : Tx} (ok : BucketsOk nd) (wf : WellFormed nd)
     (hd : TxHashesDistinct nd) (hb : nd.chain[n]? = some b) (ht : b.txs[i]? = some t) :
     numberAndIndexByTxHash nd t.hash = some (n, i) := by
-  unfold numberAndIndexByTxHash
+  rw [ok.2 t.hash]
   cases hf : findTx nd.chain t.hash with
   | none =>
     rw [findTx_none_iff] at hf
@@ -1002,14 +1266,72 @@ theorem findTx_complete {nd : Node} {n i : Nat} {b : Block} {t : Tx} (wf : WellF
     subst hii
     rw [← hn', hjn]
 
-theorem by_hash_complete {nd : Node} {n i : Nat} {b : Block} {t : Tx} (wf : WellFormed nd)
+theorem by_hash_complete {nd : Node} {n i : Nat} {b : Block} {t : Tx} (ok : BucketsOk nd) (wf : WellFormed nd)
     (hd : TxHashesDistinct nd) (hb : nd.chain[n]? = some b) (ht : b.txs[i]? = some t) :
     transactionByHash nd t.hash = .tx t ∧
       transactionReceipt nd t.hash = .receipt t (finality n (statusL1 nd)) n b.hash ∧
       transactionStatus nd t.hash = .status (finality n (statusL1 nd)) t.reverted := by
-  have hf := findTx_complete wf hd hb ht
+  have hf := findTx_complete ok wf hd hb ht
   simp [transactionByHash, txByHash, transactionReceipt, transactionStatus, hf, txByNumberAndIndex,
     txAndBlockHash, blockByNumber, hb, ht]
+
+/-! ### an independent specification of "the state after a list of blocks": the left fold of the
+state diffs over total maps (what the property text calls the state as of a block) -/
+
+structure AState where
+  storage : Nat → Nat → Nat
+  nonce : Nat → Nat
+  classHash : Nat → Nat
+  contract : Nat → Bool      -- the address is a contract of the state
+  declared : Nat → Bool
+
+def AState.empty : AState :=
+  { storage := fun _ _ => 0, nonce := fun _ => 0, classHash := fun _ => 0, contract := fun _ => false,
+    declared := fun _ => false }
+
+/-- Apply one state diff: every written slot / nonce / class hash takes the written value,
+everything else keeps its value; deployed contracts (and system contracts whose storage is
+written) become contracts; declared classes become declared. -/
+def AState.apply (s : AState) (d : Diff) : AState :=
+  { storage := fun a k => match lookup3 d.storage a k with | some v => v | none => s.storage a k
+    nonce := fun a => match lookup2 d.nonces a with | some v => v | none => s.nonce a
+    classHash := fun a => match classInDiff d a with | some v => v | none => s.classHash a
+    contract := fun a => s.contract a || deploysInDiff d a
+    declared := fun c => s.declared c || d.declared.contains c }
+
+def stateAfter (bs : List Block) : AState := bs.foldl (fun s b => s.apply b.diff) AState.empty
+
+theorem stateAfter_snoc (bs : List Block) (b : Block) :
+    stateAfter (bs ++ [b]) = (stateAfter bs).apply b.diff := by
+  simp [stateAfter, List.foldl_append]
+
+theorem readers_eq_fold_rev (rs : List Block) :
+    (∀ a k, storageIn rs.reverse a k = (stateAfter rs.reverse).storage a k) ∧
+    (∀ a, nonceIn rs.reverse a = (stateAfter rs.reverse).nonce a) ∧
+    (∀ a, classHashIn rs.reverse a = (stateAfter rs.reverse).classHash a) ∧
+    (∀ a, deployedIn rs.reverse a = (stateAfter rs.reverse).contract a) ∧
+    (∀ c, declaredIn rs.reverse c = (stateAfter rs.reverse).declared c) := by
+  induction rs with
+  | nil => exact ⟨fun _ _ => rfl, fun _ => rfl, fun _ => rfl, fun _ => rfl, fun _ => rfl⟩
+  | cons b rs ih =>
+    obtain ⟨h1, h2, h3, h4, h5⟩ := ih
+    rw [List.reverse_cons, stateAfter_snoc]
+    refine ⟨?_, ?_, ?_, ?_, ?_⟩
+    · intro a k; rw [storageIn_snoc]; simp only [AState.apply]; cases lookup3 b.diff.storage a k <;> simp [h1]
+    · intro a; rw [nonceIn_snoc]; simp only [AState.apply]; cases lookup2 b.diff.nonces a <;> simp [h2]
+    · intro a; rw [classHashIn_snoc]; simp only [AState.apply]; cases classInDiff b.diff a <;> simp [h3]
+    · intro a; rw [deployedIn_snoc]; simp only [AState.apply, h4]
+    · intro c; rw [declaredIn_snoc]; simp only [AState.apply, h5]
+
+/-- The newest-first searches of the model's readers compute exactly the fold. -/
+theorem readers_eq_fold (bs : List Block) :
+    (∀ a k, storageIn bs a k = (stateAfter bs).storage a k) ∧
+    (∀ a, nonceIn bs a = (stateAfter bs).nonce a) ∧
+    (∀ a, classHashIn bs a = (stateAfter bs).classHash a) ∧
+    (∀ a, deployedIn bs a = (stateAfter bs).contract a) ∧
+    (∀ c, declaredIn bs c = (stateAfter bs).declared c) := by
+  have := readers_eq_fold_rev bs.reverse
+  simpa using this
 
 /-! ### v8 `pending` and the wire layer -/
 
@@ -1061,9 +1383,10 @@ theorem isV8Pending_false_iff (ver : Ver) (id : BlockId) :
     isV8Pending ver id = false ↔ ¬ (ver = .v8 ∧ id = .pre) := by
   cases ver <;> cases id <;> simp [isV8Pending]
 
-theorem decodeId_v8_never_l1 (raw : RawId) (id : BlockId) (h : decodeId .v8 raw = .ok id) :
+theorem decodeId_v8_never_l1 (cfg : Cfg) (raw : RawId) (id : BlockId) (h : decodeId cfg .v8 raw = .ok id) :
     id ≠ .l1Accepted := by
   cases raw with
+  | null => simp [decodeId] at h
   | tag s =>
     simp only [decodeId] at h
     split at h
@@ -1073,26 +1396,59 @@ theorem decodeId_v8_never_l1 (raw : RawId) (id : BlockId) (h : decodeId .v8 raw 
       · cases h
   | obj hh nn =>
     cases hh <;> cases nn <;> simp [decodeId] at h <;> subst h <;> simp
+  | objNullNumber =>
+    simp only [decodeId] at h
+    split at h
+    · cases h; simp
+    · cases h
   | other => simp [decodeId] at h
 
-/-! ### last update block (v10 INCLUDE_LAST_UPDATE_BLOCK) -/
+/-- A decoding failure is always "invalid params". -/
+theorem decodeId_error (cfg : Cfg) (ver : Ver) (raw : RawId) (h : ∀ id, decodeId cfg ver raw ≠ .ok id) :
+    decodeId cfg ver raw = .error .invalidParams := by
+  cases hd : decodeId cfg ver raw with
+  | ok id => exact absurd hd (h id)
+  | error e =>
+    cases raw with
+    | null => simp [decodeId] at hd; rw [hd]
+    | tag s =>
+      simp only [decodeId] at hd
+      split at hd
+      · cases hd
+      · cases ver <;> simp only at hd <;> (repeat' split at hd) <;> cases hd <;> rfl
+    | obj hh nn => cases hh <;> cases nn <;> simp [decodeId] at hd <;> rw [hd]
+    | objNullNumber =>
+      simp only [decodeId] at hd
+      split at hd
+      · cases hd
+      · cases hd; rfl
+    | other => simp [decodeId] at hd; rw [hd]
 
-theorem lastLoggedIn_snoc (bs : List Block) (b : Block) (a k : Nat) :
-    lastLoggedIn (bs ++ [b]) a k =
-      match lookup3 b.diff.storage a k with
-      | some v => if v == 0 && storageIn bs a k == 0 then lastLoggedIn bs a k else b.number
-      | none => lastLoggedIn bs a k := by
-  unfold lastLoggedIn
-  simp only [List.reverse_append, List.reverse_cons, List.reverse_nil, List.nil_append, List.singleton_append,
-    lastLoggedRev, List.reverse_reverse]
-  cases lookup3 b.diff.storage a k <;> rfl
-
-theorem lastTouchedIn_snoc (bs : List Block) (b : Block) (a k : Nat) :
-    lastTouchedIn (bs ++ [b]) a k =
-      if (lookup3 b.diff.storage a k).isSome then b.number else lastTouchedIn bs a k := by
-  unfold lastTouchedIn
-  simp only [List.reverse_append, List.reverse_cons, List.reverse_nil, List.nil_append, List.singleton_append,
-    List.find?_cons]
-  cases h : (lookup3 b.diff.storage a k).isSome <;> simp
+/-- Dispatch: a decodable, non-null id is handed to the handler of the method; a v8 id is never
+`l1_accepted`. -/
+theorem serve_dispatch (cfg : Cfg) (be : Backend) (ver : Ver) (nd : Node) (raw : RawId) (id : BlockId)
+    (hn : raw ≠ .null) (h : decodeId cfg ver raw = .ok id) (f : List Nat) (i : Nat) (a k c : Nat) :
+    ¬ (ver = .v8 ∧ id = .l1Accepted) ∧
+    serve cfg be ver nd (.blockWithTxHashes raw) = blockWithTxHashes ver nd id ∧
+    serve cfg be ver nd (.blockWithTxs raw) = blockWithTxs ver nd id ∧
+    serve cfg be ver nd (.blockWithReceipts raw) = blockWithReceipts ver nd id ∧
+    serve cfg be ver nd (.blockTransactionCount raw) = blockTransactionCount ver nd id ∧
+    serve cfg be ver nd (.stateUpdate raw f) = stateUpdate ver nd id f ∧
+    serve cfg be ver nd (.transactionByBlockIdAndIndex raw (Int.ofNat i)) = transactionByBlockIdAndIndex ver nd id i ∧
+    serve cfg be ver nd (.storageAt a k raw) = storageAt be ver nd id a k ∧
+    serve cfg be ver nd (.nonce raw a) = nonce be ver nd id a ∧
+    serve cfg be ver nd (.classHashAt raw a) = classHashAt be ver nd id a ∧
+    serve cfg be ver nd (.classByHash raw c) = classByHash be ver nd id c ∧
+    serve cfg be ver nd (.classAt raw a) = classAt be ver nd id a := by
+  refine ⟨?_, ?_⟩
+  · rintro ⟨hv, hi⟩
+    subst hv
+    exact decodeId_v8_never_l1 cfg raw id h hi
+  · have hneg : ¬ ((i : Int) < 0) := by omega
+    have hw : ∀ p k', withId cfg ver p raw k' = k' id := by
+      intro p k'
+      cases raw <;> simp_all [withId]
+    have hnb : (raw == RawId.null) = false := by simpa using hn
+    simp [serve, hw, hneg, hnb]
 
 end Juno.C08
